@@ -1,7 +1,9 @@
 """C04 — every run ends once, and its stream ends with the matching terminal event."""
 from __future__ import annotations
 
-from ..engine import monitors, suite
+import random
+
+from ..engine import monitors, reuse, suite
 from ..runner import Env, Outcome
 
 THEOREMS = ["C04_init_live", "C04_terminal_last", "C04_outcome_once", "C04_consumer_terminates",
@@ -30,11 +32,33 @@ def _raising(spec: dict, rng) -> dict:
     return spec
 
 
+def _reuse_runs(env: Env, out: Outcome, n: int) -> None:
+    """histories of 2..3 runs on one runtime that reuse an explicit run_id (earlier handlers kept or dropped, their streams
+    unread / partly read): the last run is refused or is a run of its own (own events only, one matching terminal event, last)"""
+    rng = random.Random(env.rng.randrange(1 << 30))
+    jobs = []
+    if env.replay is not None and isinstance(env.replay.get("payload", {}).get("case"), dict) and "reuse" in env.replay["payload"]["case"]:
+        jobs.append(env.replay["payload"]["case"]["reuse"])
+    jobs += [reuse.gen_scenario(rng) for _ in range(n)]
+    for sc in jobs:
+        vs, info = reuse.run_scenario(sc)
+        out.evaluations += 1
+        for k, v in info.items():
+            out.count(f"reuse:{k}", v)
+        out.count("reuse:last_kind:" + sc["runs"][-1]["kind"])
+        if info.get("accepted", 0) >= 2:
+            out.nontrivial(("reuse", repr(sc)))
+        for v in vs:
+            v.replay = {"reuse": sc}
+            out.violations.append(v)
+
+
 def run(env: Env) -> Outcome:
     out = Outcome()
     out.rule = ("direct (state,tick) pairs + live scripted workflows (steps that raise, return non-events, race with StopEvent, "
-                "cancel/timeout externals, a few raising policies); non-trivial = more than 2 ticks; distinct by (spec, schedule)")
+                "cancel/timeout externals, a few raising policies); run histories reusing one run_id on one runtime; non-trivial = more than 2 ticks; distinct by (spec, schedule)")
     suite.direct_corr(env, out, env.budget(3000, 60000))
     suite.live_runs(env, out, env.budget(400, 8000), [monitors.mon_c04], extra_specs=suite.load_corpus("C04"),
                     mutate_spec=_raising)
+    _reuse_runs(env, out, env.budget(150, 3000))
     return out
